@@ -14,7 +14,10 @@ func vS(s string) *dynamodb.AttributeValue { return &dynamodb.AttributeValue{S: 
 func VerifC14V1() {
 	c := NewClient()
 	err := AddTable(c, "tbl", "id", "")
-	if err != nil { println("ERR:", err.Error()) }; nd.Assert(err == nil, "addtable")
+	if err != nil {
+		println("ERR:", err.Error())
+	}
+	nd.Assert(err == nil, "addtable")
 	v := nd.StringN("v", 1)
 	w := nd.StringN("w", 1)
 	in := vS(v)
